@@ -31,7 +31,8 @@ COMPONENTS = {
 }
 ASSUMPTIONS = ["closing the connection with ws_close(1013) and returning is an allowed reaction to any frame",
                "frames that fail the shape gate are ignored without an answer by design",
-               "authentication disabled in this check (AUTH frames are then ignored); C15 covers AUTH"]
+               "authentication disabled in this check (AUTH frames are then ignored); C15 covers AUTH",
+               "with rate limits configured (a third of the runs) 'rate-limited' OK/NOTICE frames count as answers"]
 SHRINK = [["clients", "*", "script"], ["faults"]]
 
 VALUES = [None, True, False, 0, -1, 1.5, 2 ** 70, "", "x", [], [[]], {}, {"a": 1}, "\x00", "é", [None], ["x", 1]]
@@ -147,8 +148,12 @@ def gen(rng, knobs):
         else:
             good.append(["barrier"])
     faults = sorted(rng.sample(range(5, 120), rng.choice([0, 0, 0, 1, 2]))) if backend == "sql" else []
+    limits = rng.choice([None, None, {"ip": {"EVENT": "3/s", "REQ": "4/s"}}, {"global": {"EVENT": "2/s"}, "ip": {"REQ": "2/s,5/m"}}])
     return {"backend": backend, "preload": pre, "faults": faults, "p_buffered": rng.choice([0.0, 0.3, 0.7, 1.0]),
-            "clients": [{"script": hostile, "slow": rng.random() < 0.2},
+            "rate_limits": limits, "via_api": rng.random() < 0.5,
+            "message_timeout": rng.choice([1800, 1800, 30, 5]),
+            "clients": [{"script": hostile, "slow": rng.random() < 0.2,
+                         "origin": rng.choice(["", "", "https://client.example", "http://bad.actor", "HTTP://BAD.ACTOR"])},
                         {"script": good, "slow": rng.random() < 0.2}],
             "sched": {"client": rng.choice([0.5, 1.0, 3.0]), "sql": rng.choice([0.3, 1.0, 3.0]),
                       "exec": rng.choice([0.2, 1.0]), "writer": rng.choice([0.2, 1.0]),
@@ -171,7 +176,13 @@ def run(case, sim):
     backend = case["backend"]
     clients = [{"script": [[i[0]] + ([i[1]] if len(i) > 1 else []) for i in c["script"]], "slow": c.get("slow")}
                for c in case["clients"]]
-    w = relay.RelayWorld(sim, backend, clients, preload=case.get("preload"), p_buffered=case.get("p_buffered", 0.0))
+    for i, c in enumerate(clients):
+        c["origin"] = case["clients"][i].get("origin", "")
+    w = relay.RelayWorld(sim, backend, clients, preload=case.get("preload"), p_buffered=case.get("p_buffered", 0.0),
+                         rate_limits=case.get("rate_limits"),
+                         cfg={"origin_blacklist": ["http://bad.actor"], "message_timeout": case.get("message_timeout", 1800)})
+    w.via_api = bool(case.get("via_api"))
+
     async def arm(world):
         # faults count from the moment the clients connect (a fault while starting up only
         # prevents the start)
@@ -206,7 +217,11 @@ def run(case, sim):
         is_alive = alive.get(c.idx, False)
         if c.closed is not None:
             probes["closed_by_relay_%s" % c.closed] += 1
-            if role == "good" and not case.get("faults"):
+            idle = getattr(c, "closed_mono", 0.0) - getattr(c, "last_deliver_mono", 0.0)
+            timed_out = idle >= case.get("message_timeout", 1800) - 1.0      # the idle timeout: legitimate
+            if timed_out:
+                probes["idle_timeouts"] += 1
+            if role == "good" and not case.get("faults") and not timed_out and c.origin != "http://bad.actor":
                 viol.append({"cls": "good-connection-closed", "sig": "good-connection-closed|%s" % backend,
                              "detail": {"code": c.closed}})
         eose = collections.Counter(m[1] for s, m in tx if isinstance(m, list) and len(m) == 2 and m[0] == "EOSE"
